@@ -3,6 +3,9 @@
 (*   MC_Raft3.cfg         exhaustive check of the faithful spec (all W_* FALSE), small bounds       *)
 (*   MC_Raft3_sim.cfg     larger bounds for  -simulate ; EmitSim prints every finished behaviour as *)
 (*                        one JSON schedule (actions + expected projection) for lockstep replay     *)
+(*   MC_Raft3_prevote.cfg, _prevote_full.cfg, _prevote_faults.cfg, _sim_prevote.cfg,                *)
+(*   _sim1_prevote.cfg    the same instances with PreVote = TRUE (two-phase election); the quick    *)
+(*                        exhaustive one explores Campaign() of nodes 1 and 2 only                  *)
 (*   MC_RaftAtk_*.cfg     one weakened rule each; EmitAttack prints the counterexample schedule     *)
 EXTENDS EtcdRaft, TLCExt, Json
 
